@@ -368,7 +368,8 @@ MANIFEST = {
                  "specification that re-derives the case from the logged generator (two-stage oracle: coarse fixed point in TLC, fine "
                  "residuals in the harness projection)",
     "text": "TLC enumerates SPD / symmetric-with-known-spectrum / companion / triangular / banded / dense / rank-deficient / graded / "
-            "ill-conditioned (graded singular values, Hilbert, Laeuchli; exact condition number, orthogonality tolerance u*cond) inputs "
+            "ill-conditioned (graded singular values, Hilbert, Laeuchli; exact condition number, orthogonality tolerance u*cond) / "
+            "SPD with prescribed condition number and exact square root / partially reduced (every pattern, n <= 7) inputs "
             "up to 4x4 and prints the exact Cholesky and LDL factors, eigenvalues and singular values where the construction yields them; "
             "the real Cholesky, LDL, forced-PD LDL, Gram-Schmidt, Householder bi-/tridiagonalisation, Hessenberg reduction, QR algorithm, "
             "eigensystem, SVD, matrix square root and inverse square root are called for every option combination, Float64 and Real64, "
